@@ -60,6 +60,17 @@ QUERIES += [
     'select cast(a as int) from t1', 'select a from t1 where a <> 1', 'select a from t1 where a != 1 and a >= 1 and a <= 2 and a < 3',
     'select count(*) from t1 join t2 on t1.a = t2.a', 'select t1.a from t1 left join t2 on t1.a = t2.a and t2.c = 1',
     'select t1.a from t1 left join t2 on t1.a = t2.a where t2.a is null',
+    # sub-queries whose own FROM mentions a table of the outer query (must stay uncorrelated)
+    'select a from t1 where exists (select 1 from t1, t2 where t1.a = t2.a)',
+    'select a from t1 where a in (select t2.a from t1, t2 where t1.b = t2.c)',
+    'select a, (select count(*) from t1, t2 where t1.a = t2.a) as n from t1',
+    'select a from t1 where a in (select a from t1 where b = 1)',
+    'select a from t1 as x where exists (select 1 from t1 where b = 2)',
+    # join chains mixing kinds
+    'select t1.a, t2.c, t3.c from t1 left join t2 on t1.a = t2.a join t3 on t3.b = t1.b',
+    'select t1.a, t2.c, t3.c from t1 full join t2 on t1.a = t2.a left join t3 on t3.b = t1.b',
+    'select t1.a, t2.c, t3.c from t1 full join t2 on t1.a = t2.a join t3 on t3.b = t1.b',
+    'select t1.a, t2.c, t3.c from t1 join t2 on t1.a = t2.a left join t3 on t3.b = t1.b join t2 as u on u.a = t1.a',
 ]
 DML = [
     'insert into t1 (a, b) values (3, 4)', 'insert into t1 (a, b) values (3, 4), (5, null)', 'insert into t1 (b, a) values (7, 8)',
